@@ -259,7 +259,9 @@ func (s *SpecRef) params(list []interface{}) []*ParamRef {
 		if asS(p.Schema["type"]) == "array" {
 			p.IsArray = true
 			p.Items = s.Resolve(asM(p.Schema["items"]))
-			p.Kind = s.kindOf(p.Items)
+			if p.Kind != "custom" {
+				p.Kind = s.kindOf(p.Items)
+			}
 		}
 		out = append(out, p)
 	}
